@@ -45,6 +45,7 @@ func newGenericObjectDeploymentController(
 	newObjectDeployment adapters.ObjectDeploymentFactory,
 	newObjectSet adapters.ObjectSetAccessorFactory,
 	newObjectSetList adapters.ObjectSetListAccessorFactory,
+	newObjectSlice adapters.ObjectSliceFactory,
 ) *GenericObjectDeploymentController {
 	controller := &GenericObjectDeploymentController{
 		gvk:                 gvk,
@@ -70,7 +71,9 @@ func newGenericObjectDeploymentController(
 					scheme:       scheme,
 				},
 				&archiveReconciler{
-					client: c,
+					client:         c,
+					scheme:         scheme,
+					newObjectSlice: newObjectSlice,
 				},
 			},
 		},
@@ -91,6 +94,7 @@ func NewObjectDeploymentController(
 		adapters.NewObjectDeployment,
 		adapters.NewObjectSet,
 		adapters.NewObjectSetList,
+		adapters.NewObjectSlice,
 	)
 }
 
@@ -106,6 +110,7 @@ func NewClusterObjectDeploymentController(
 		adapters.NewClusterObjectDeployment,
 		adapters.NewClusterObjectSet,
 		adapters.NewClusterObjectSetList,
+		adapters.NewClusterObjectSlice,
 	)
 }
 
